@@ -256,6 +256,34 @@ func isMsgChanType(t types.Type) bool {
 }
 
 func runC16(c *Ctx) {
+	c06StopAndWait(c, c.R.Rule("R9", "K3 (= C06.R3) what the restart path relies on: StopAndWait returns nil only after Stop[ok] → WaitPipeline[ok] → WaitPersisted[completed], in both engines", 8))
+	r8 := c.R.Rule("R8", "K8 what counts as running: provisioning.isRunningStatus answers true for StatusRunning and StatusRecovering (a pipeline parked in its recovery back-off is about to restart: it needs the authorisation and the drain like a running one)", 2)
+	if fn := c.SSA(r8, pProv, "isRunningStatus"); fn != nil && len(fn.Params) == 1 {
+		st := ssa.Value(fn.Params[0])
+		for _, name := range []string{"StatusRunning", "StatusRecovering"} {
+			k := c.W.LookupObj(pPipe, name)
+			edges := kit.CmpEdges(fn, func(b *ssa.BinOp) (bool, bool) {
+				if (b.X == st && isConstObj(b.Y, k)) || (b.Y == st && isConstObj(b.X, k)) {
+					switch b.Op {
+					case token.EQL:
+						return true, true
+					case token.NEQ:
+						return true, false
+					}
+				}
+				return false, false
+			})
+			ok := len(edges) > 0
+			for _, e := range edges {
+				for _, ret := range kit.Returns(fn) {
+					if kit.IsBoolConst(kit.RetVal(ret, 0), false) && kit.EdgeReaches(e, ret, nil) {
+						ok = false
+					}
+				}
+			}
+			c.R.Check(ok, r8, "isRunningStatus("+name+") is true", c.Pos(fn.Pos()), "true", "isRunningStatus no longer answers true for pipeline."+name+": ApplyPlanLive takes its not-running branch for such a pipeline — no operator authorisation, no StopAndWait — while the run (or its recovery restart) is live", true)
+		}
+	}
 	r7 := c.R.Rule("R7", "K5 frozen guarded-by table: the per-pipeline lock registry (pipelineLocks.locks) is accessed only under its mu — the premise of 'one apply per pipeline at a time'", 2)
 	c.guardTable(r7, guardEntry{Rel: pProv, Struct: "pipelineLocks", Mutex: "mu", Fields: []string{"locks"}, Min: 2})
 	r1 := c.R.Rule("R1", "K3/K4 lock, re-plan, hash: the per-pipeline lock is taken (deferred unlock) before the re-plan; every mutating call is dominated by Plan[ok] and the hash-equal edge", 14)
